@@ -29,11 +29,20 @@ type SpecEnv struct {
 	facts   []*Term // memory-safety facts about references read while evaluating
 	depth   int
 	parent  *SpecEnv // macros see the identifiers of the clause that uses them
+	astArgs map[string]ast.Expr
 }
 
 func (e *SpecEnv) lookupVar(name string) (SVal, bool) {
 	if v, ok := e.vars[name]; ok {
 		return v, true
+	}
+	if x, ok := e.astArgs[name]; ok && e.parent != nil {
+		e.parent.depth++
+		r := e.parent.eval(x)
+		e.parent.depth--
+		e.facts = append(e.facts, e.parent.facts...)
+		e.parent.facts = nil
+		return r, true
 	}
 	if v, ok := e.local(name); ok {
 		return v, true
@@ -579,10 +588,7 @@ func (e *SpecEnv) binary(n *ast.BinaryExpr) SVal {
 		}
 	}
 	if at.Sort == SString && n.Op == token.ADD {
-		if at.Op == "str" && bt.Op == "str" {
-			return SVal{StrLit(at.Str + bt.Str), tyString}
-		}
-		return SVal{mk("str.++", SString, at, bt), tyString}
+		return SVal{strConcat(at, bt), tyString}
 	}
 	switch n.Op {
 	case token.LSS:
@@ -657,9 +663,18 @@ func (e *SpecEnv) callExpr(n *ast.CallExpr) SVal {
 		case "forall", "exists":
 			name := n.Args[0].(*ast.Ident).Name
 			bvCounter++
-			bv := BVar(name+"$"+strconv.Itoa(bvCounter), SInt)
+			bvSort, bvType := SInt, types.Type(tyInt)
+			if len(n.Args) == 3 {
+				// forall(k, T, body): k ranges over all values of Go type T
+				T := e.resolveType(n.Args[1])
+				if T == nil {
+					e.fail(n, "forall: unknown type")
+				}
+				bvSort, bvType = sortOf(T), T
+			}
+			bv := BVar(name+"$"+strconv.Itoa(bvCounter), bvSort)
 			saved, had := e.vars[name]
-			e.vars[name] = SVal{bv, tyInt}
+			e.vars[name] = SVal{bv, bvType}
 			var r *Term
 			if len(n.Args) == 4 {
 				lo, hi := e.eval(n.Args[1]).T, e.eval(n.Args[2]).T
@@ -694,11 +709,12 @@ func (e *SpecEnv) callExpr(n *ast.CallExpr) SVal {
 					r = Exists([]*Term{bv}, And(rng, body))
 				}
 			} else {
-				body := e.evalBool(n.Args[1])
+				body := e.evalBool(n.Args[len(n.Args)-1])
+				inv := And(typeInv(bv, bvType, 0)...)
 				if id.Name == "forall" {
-					r = Forall([]*Term{bv}, body)
+					r = Forall([]*Term{bv}, Implies(inv, body))
 				} else {
-					r = Exists([]*Term{bv}, body)
+					r = Exists([]*Term{bv}, And(inv, body))
 				}
 			}
 			if had {
@@ -729,6 +745,45 @@ func (e *SpecEnv) callExpr(n *ast.CallExpr) SVal {
 				return SVal{Eq(Sel(x.T, 0), IntLit(typeTag(T))), tyBool}
 			}
 			return SVal{unbox(e.st, x.T, T), T}
+		case "heap":
+			// heap(T): the current heap of cells of Go type T, as an array from references
+			T := e.resolveType(n.Args[0])
+			if T == nil {
+				e.fail(n, "heap: unknown type")
+			}
+			var cell *Sort
+			if _, isMap := T.Underlying().(*types.Map); isMap {
+				cell = mapSortOf(T)
+			} else {
+				cell = sortOf(T)
+			}
+			return SVal{e.st.getHeap(cell), nil}
+		case "backing":
+			// backing(s): the array holding slice s's elements (element i is at offset(s)+i)
+			a := e.deref(e.eval(n.Args[0]))
+			sl, ok := a.Ty.Underlying().(*types.Slice)
+			if !ok {
+				e.fail(n, "backing of non-slice")
+			}
+			return SVal{Select(e.st.getHeap(ArraySort(SInt, sortOf(sl.Elem()))), Sel(a.T, 0)), nil}
+		case "offset":
+			a := e.deref(e.eval(n.Args[0]))
+			return SVal{Sel(a.T, 1), tyInt}
+		case "upd":
+			// upd(record, "Field", value): functional record update
+			r := e.eval(n.Args[0])
+			lit, ok := n.Args[1].(*ast.BasicLit)
+			if !ok || r.T.Sort.Kind != KDT {
+				e.fail(n, "upd(record, \"Field\", value)")
+			}
+			fname, _ := strconv.Unquote(lit.Value)
+			x := e.eval(n.Args[2])
+			for i, f := range r.T.Sort.Fields {
+				if f.Go == fname {
+					return SVal{Upd(r.T, i, e.coerce(x.T, f.Sort)), r.Ty}
+				}
+			}
+			e.fail(n, "no field %s", fname)
 		case "store":
 			a, i, x := e.eval(n.Args[0]), e.eval(n.Args[1]), e.eval(n.Args[2])
 			return SVal{Store(a.T, i.T, e.coerce(x.T, a.T.Sort.Elem)), a.Ty}
@@ -806,9 +861,11 @@ func (e *SpecEnv) macro(m *Macro, n *ast.CallExpr) SVal {
 	if len(n.Args) != len(m.Params) {
 		e.fail(n, "macro arity")
 	}
-	sub := &SpecEnv{v: e.v, st: e.st, pkg: m.Pkg.Types, vars: map[string]SVal{}, oldHeap: e.oldHeap, oldLW: e.oldLW, depth: 1, parent: e}
+	// call by name: a parameter stands for the argument expression, evaluated in the
+	// caller's scope and in whatever state (current or old) the use occurs in
+	sub := &SpecEnv{v: e.v, st: e.st, pkg: m.Pkg.Types, vars: map[string]SVal{}, oldHeap: e.oldHeap, oldLW: e.oldLW, depth: 1, parent: e, astArgs: map[string]ast.Expr{}}
 	for i, p := range m.Params {
-		sub.vars[p] = e.eval(n.Args[i])
+		sub.astArgs[p] = n.Args[i]
 	}
 	r := sub.eval(m.Body.Expr)
 	e.facts = append(e.facts, sub.facts...)
@@ -857,45 +914,53 @@ func parseSpecSigs(text string) {
 	toks := tokenizeSExp(text)
 	i := 0
 	for i < len(toks) {
-		if toks[i] == "(" && i+2 < len(toks) && (toks[i+1] == "define-fun" || toks[i+1] == "define-fun-rec" || toks[i+1] == "declare-fun") {
-			kind := toks[i+1]
-			name := toks[i+2]
-			j := i + 3
-			var args []*Sort
-			// argument list
-			if toks[j] != "(" {
-				i++
-				continue
-			}
-			j++
-			okSig := true
-			for toks[j] != ")" {
-				if kind == "declare-fun" {
-					s := sortByName(toks[j])
-					if s == nil {
-						okSig = false
-					}
-					args = append(args, s)
-					j++
-				} else {
-					// (name Sort)
-					s := sortByName(toks[j+2])
-					if s == nil {
-						okSig = false
-					}
-					args = append(args, s)
-					j += 4
-				}
-			}
-			j++
-			ret := sortByName(toks[j])
-			if ret != nil && okSig {
-				specFuncs[name] = specFunc{Args: args, Ret: ret}
-				definedFuncs[name] = true
-			}
+		if toks[i] != "(" {
+			i++
+			continue
 		}
-		i++
+		form, next := parseSX(toks, i)
+		i = next
+		if len(form.list) < 4 {
+			continue
+		}
+		kind := form.list[0].atom
+		if kind != "define-fun" && kind != "define-fun-rec" && kind != "declare-fun" {
+			continue
+		}
+		name := form.list[1].atom
+		var args []*Sort
+		ok := true
+		for _, p := range form.list[2].list {
+			var so *Sort
+			if kind == "declare-fun" {
+				so = sortFromSX(p)
+			} else if len(p.list) == 2 {
+				so = sortFromSX(p.list[1])
+			}
+			if so == nil {
+				ok = false
+			}
+			args = append(args, so)
+		}
+		ret := sortFromSX(form.list[3])
+		if ok && ret != nil {
+			specFuncs[name] = specFunc{Args: args, Ret: ret}
+		}
+		definedFuncs[name] = true
 	}
+}
+
+func sortFromSX(s *sx) *Sort {
+	if s.list == nil {
+		return sortByName(s.atom)
+	}
+	if len(s.list) == 3 && s.list[0].atom == "Array" {
+		k, e := sortFromSX(s.list[1]), sortFromSX(s.list[2])
+		if k != nil && e != nil {
+			return ArraySort(k, e)
+		}
+	}
+	return nil
 }
 
 func tokenizeSExp(s string) []string {
